@@ -4,6 +4,11 @@ import json, os
 ROOT = os.path.dirname(os.path.dirname(os.path.abspath(__file__)))
 
 CHECKS = {
+ "C13": dict(
+   text="(1) strict snapshot of every generated model before and after every printer / graph / utils call and of module file slices around the merger; (2) explicit-state breadth-first search over the states of the process-global ANTLR caches (keyed by the serialised DFAs) with the real parse entry points and the other public calls as transitions, successor = cache reset + history replay + one call, invariant on every transition: output equals the cold output; (3) stateless exploration of all interleavings of two (thorough: three) concurrent public calls within a preemption bound, scheduling points injected at every statement of the repository's packages and at every antlr lock operation, caches reset per execution: each result equals the sequential one, shared inputs unchanged, no deadlock or panic; (4) the same bodies free-running in a separate -race build.",
+   note="Statement-level scheduling granularity; unsynchronised accesses below it are the race detector's part, which only sees races that occur in its free-running pass; protobuf, regexp and ulid are atomic.",
+   technique="preemption-bounded stateless exploration of thread interleavings (controlled scheduler) + explicit-state BFS over cache states + race-detector pass",
+   design="3/C13"),
  "C19": dict(
    text="Serialised ATNs extracted from the six generated sources and six .interp files are decoded by an own deserialiser and the Go x JS x Java automata are walked in lock step from every rule and mode start state (state kind, rule, flags, decision number, every transition with label sets compared by content; dangling states must coincide); rule/literal/symbolic/channel/mode names and .tokens numbering are compared across packages and with the names declared in the .g4 files; generated listeners are complete and the hand-written Go listener names existing rules only; grammar-derived sentences are replayed on the generated Go lexer and parser.",
    note="JS and Java parsers cannot be executed offline: they are bound through automaton and vocabulary identity; token numbering rule of ANTLR (tokens{} first, then non-fragment rules without type()) is assumed.",
